@@ -455,3 +455,23 @@ def near_traces(res, trace_a, trace_b, cfg_a, cfg_b, prop=None):
                                    "what": txt[txt.find("SAMEBITS-REJECTED"):][:900], "case": {"fam": "near", "trace_a": trace_a, "trace_b": trace_b}})
         else:
             raise
+
+
+def validate_trace(res, module, trace, label, prop=None, env_name="TRACE"):
+    """Code -> spec direction: TLC consumes a trace recorded from the real code; rejection is a violation."""
+    out = os.path.join(WORK, res.prop, f"{module}.{label}.out")
+    n = sum(1 for _ in open(trace))
+    if n == 0:
+        raise ToolError(f"vacuity guard: empty trace {trace}")
+    try:
+        st = run_tlc(module, res.tier, out, workers=1, env_extra={env_name: trace}, java_opts="-Xss1g -Xmx6g", timeout=3600)
+        res.add_tlc(st)
+        res.behaviours += 1
+        res.extra.setdefault("traces_validated_by_tlc", []).append({"module": module, "label": label, "events": n})
+    except ToolError:
+        txt = open(out, errors="replace").read()
+        if "TRACE-REJECTED" in txt:
+            res.mismatches.append({"prop": prop or res.prop, "cfg": label, "ty": "trace", "op": f"{module}: recorded execution rejected by the specification",
+                                   "what": txt[txt.find("TRACE-REJECTED"):][:1200], "case": {"fam": "trace", "module": module, "trace": trace}})
+        else:
+            raise
